@@ -253,7 +253,8 @@ Inductive gop :=
                                empty) into a window of winw x winh cells: append to graphicsNext
                                unless the image is larger than the window *)
 | ORender                   (* Vaxis.Render *)
-| ORefresh.                 (* Vaxis.Refresh: render with vx.refresh set *)
+| ORefresh                  (* Vaxis.Refresh: render with vx.refresh set *)
+| OResize (id : Z).         (* Resize of image id has finished: a new encoding waits to be sent *)
 
 Definition draw_fits (p : placement) (winw winh : Z) : bool := negb ((winw <? p_w p) || (winh <? p_h p)).
 Definition draw_into (gnext : list placement) (p : placement) (winw winh : Z) : list placement :=
@@ -274,6 +275,45 @@ Fixpoint run_ops (s : gstate) (ops : list gop) : list (list gevent) :=
   | ORefresh :: t =>
       let '(ev, gl) := render_graphics true (g_last s) (g_next s) in
       ev :: run_ops {| g_last := gl; g_next := g_next s |} t
+  | OResize _ :: t => run_ops s t
+  end.
+
+(* Image data (kitty).  KittyImage.Resize leaves the new encoding in k.buf and clears k.uploaded;
+   the placement's writeTo sends the buffer (event tag 2) before the a=p sequence and sets
+   k.uploaded.  [pending] = ids of the images whose newest encoding has not been sent.
+   Wire events are (tag, id, col, row): 0 delete, 1 put, 2 image data. *)
+Definition wire := (Z * Z * Z * Z)%type.
+Definition mem_id (i : Z) (l : list Z) : bool := existsb (Z.eqb i) l.
+Definition remove_id (i : Z) (l : list Z) : list Z := filter (fun j => negb (j =? i)) l.
+
+Fixpoint send_events (pending : list Z) (evs : list gevent) : list wire :=
+  match evs with
+  | [] => []
+  | GDelete p :: t => (0, p_id p, p_col p, p_row p) :: send_events pending t
+  | GWrite p :: t =>
+      if mem_id (p_id p) pending
+      then (2, p_id p, 0, 0) :: (1, p_id p, p_col p, p_row p) :: send_events (remove_id (p_id p) pending) t
+      else (1, p_id p, p_col p, p_row p) :: send_events pending t
+  end.
+
+Definition upload_ids (ev : list wire) : list Z :=
+  flat_map (fun e : wire => let '(t, i, _, _) := e in if t =? 2 then [i] else []) ev.
+Definition after_uploads (pending : list Z) (ev : list wire) : list Z :=
+  filter (fun i => negb (mem_id i (upload_ids ev))) pending.
+
+(* the frames of a history as they appear on the wire: (graphicsNext, events) per render *)
+Fixpoint kitty_frames (s : gstate) (pending : list Z) (ops : list gop) : list (list placement * list wire) :=
+  match ops with
+  | [] => []
+  | OClear :: t => kitty_frames {| g_last := g_last s; g_next := [] |} pending t
+  | ODraw p ww wh :: t => kitty_frames {| g_last := g_last s; g_next := draw_into (g_next s) p ww wh |} pending t
+  | ORender :: t =>
+      let ev := send_events pending (fst (render_graphics false (g_last s) (g_next s))) in
+      (g_next s, ev) :: kitty_frames {| g_last := g_next s; g_next := g_next s |} (after_uploads pending ev) t
+  | ORefresh :: t =>
+      let ev := send_events pending (fst (render_graphics true (g_last s) (g_next s))) in
+      (g_next s, ev) :: kitty_frames {| g_last := g_next s; g_next := g_next s |} (after_uploads pending ev) t
+  | OResize i :: t => kitty_frames s (i :: pending) t
   end.
 
 (* ------------------------------------------------------------------ property predicates
@@ -358,6 +398,55 @@ Fixpoint frames_ok (prev : list placement) (frames : list (bool * list placement
   match frames with
   | [] => true
   | (r, cur, ev) :: t => frame_ok r prev cur ev && frames_ok cur t
+  end.
+
+(* transmission of image data on one observed history: at every frame, every placement shown
+   whose image has an encoding not yet sent gets it in that frame ("transmitted when it first
+   appears or changes"), and data is sent only when pending and only once ("not retransmitted
+   while unchanged") *)
+Fixpoint nodup_ids (l : list Z) : bool :=
+  match l with
+  | [] => true
+  | x :: t => negb (mem_id x t) && nodup_ids t
+  end.
+
+Definition trans_frame_ok (pending : list Z) (cur : list placement) (ev : list wire) : bool :=
+  let ups := upload_ids ev in
+  forallb (fun p => negb (mem_id (p_id p) pending) || mem_id (p_id p) ups) cur &&
+  forallb (fun i => mem_id i pending) ups && nodup_ids ups.
+
+Fixpoint trans_ok (pending : list Z) (ops : list gop) (frames : list (list placement * list wire)) : bool :=
+  match ops with
+  | [] => true
+  | OResize i :: t => trans_ok (i :: pending) t frames
+  | ORender :: t | ORefresh :: t =>
+      match frames with
+      | (cur, ev) :: ft => trans_frame_ok pending cur ev && trans_ok (after_uploads pending ev) t ft
+      | [] => false
+      end
+  | _ :: t => trans_ok pending t frames
+  end.
+
+(* Guard of the recorded finding resize-same-cells: some non-refresh frame shows a placement that
+   is identical (id, col, row, w, h) to one of the previous frame although its image has been
+   re-encoded since it was last sent.  samePlacement then suppresses the write, and with it the
+   new pixels. *)
+Definition stale_frame (refresh : bool) (pending : list Z) (prev cur : list placement) : bool :=
+  negb refresh && existsb (fun p => mem_id (p_id p) pending && mem_p p prev) cur.
+
+Fixpoint stale_guard (s : gstate) (pending : list Z) (ops : list gop) : bool :=
+  match ops with
+  | [] => false
+  | OClear :: t => stale_guard {| g_last := g_last s; g_next := [] |} pending t
+  | ODraw p ww wh :: t => stale_guard {| g_last := g_last s; g_next := draw_into (g_next s) p ww wh |} pending t
+  | ORender :: t =>
+      let ev := send_events pending (fst (render_graphics false (g_last s) (g_next s))) in
+      stale_frame false pending (g_last s) (g_next s) ||
+      stale_guard {| g_last := g_next s; g_next := g_next s |} (after_uploads pending ev) t
+  | ORefresh :: t =>
+      let ev := send_events pending (fst (render_graphics true (g_last s) (g_next s))) in
+      stale_guard {| g_last := g_next s; g_next := g_next s |} (after_uploads pending ev) t
+  | OResize i :: t => stale_guard s (i :: pending) t
   end.
 
 (* ------------------------------------------------------------------ correspondence *)
@@ -454,9 +543,10 @@ Definition c20_pixels_violations (cases : list pixels_case) : list Z :=
    per Render/Refresh, the snapshot of graphicsNext and the placement control sequences found in
    the console output.
    op = (code, id, col, row, w, h, winw, winh): 0 Clear, 1 Draw (into a window of winw x winh
-   cells), 2 Render, 3 Refresh;
+   cells), 2 Render, 3 Refresh, 4 Resize of image id finished;
    frame = (refresh, graphicsNext, events); event = (tag, id, col, row): 0 delete, 1 write
-   (a=p preceded by CUP row+1;col+1), anything else = malformed output. *)
+   (a=p preceded by CUP row+1;col+1), 2 image data (final chunk of an upload of image id),
+   anything else = malformed output. *)
 Definition rawp := (Z * Z * Z * Z * Z)%type.
 Definition mk_p (r : rawp) : placement :=
   let '(i, c, rw, w, h) := r in {| p_id := i; p_col := c; p_row := rw; p_w := w; p_h := h |}.
@@ -464,8 +554,8 @@ Definition rawop := (Z * Z * Z * Z * Z * Z * Z * Z)%type.
 Definition mk_op (r : rawop) : gop :=
   let '(code, i, c, rw, w, h, ww, wh) := r in
   if code =? 0 then OClear else if code =? 1 then ODraw (mk_p (i, c, rw, w, h)) ww wh
-  else if code =? 2 then ORender else ORefresh.
-Definition rawev := (Z * Z * Z * Z)%type.
+  else if code =? 2 then ORender else if code =? 3 then ORefresh else OResize i.
+Definition rawev := wire.
 Definition ev_key (e : gevent) : rawev :=
   match e with
   | GDelete p => (0, p_id p, p_col p, p_row p)
@@ -484,17 +574,20 @@ Fixpoint next_at_renders (gnext : list placement) (ops : list gop) : list (list 
   | OClear :: t => next_at_renders [] t
   | ODraw p ww wh :: t => next_at_renders (draw_into gnext p ww wh) t
   | ORender :: t | ORefresh :: t => gnext :: next_at_renders gnext t
+  | OResize _ :: t => next_at_renders gnext t
   end.
 
 Definition c20_placement_mismatches (cases : list placement_case) : list Z :=
   bad_indices (fun c => let '(rops, frames) := c in
                         let ops := map mk_op rops in
                         negb (list_eqb (list_eqb rawev_eqb)
-                                (map (map ev_key) (run_ops g_init ops))
+                                (map snd (kitty_frames g_init [] ops))
                                 (map (fun f : rawframe => snd f) frames) &&
                               list_eqb (list_eqb same_placement)
                                 (next_at_renders [] ops)
                                 (map (fun f : rawframe => map mk_p (snd (fst f))) frames))) cases.
+
+Definition not_data (e : rawev) : bool := let '(t, _, _, _) := e in negb (t =? 2).
 
 Definition frame_key_ok (refresh : bool) (prev cur : list placement) (ev : list rawev) : bool :=
   list_eqb rawev_eqb ev
@@ -504,7 +597,8 @@ Definition frame_key_ok (refresh : bool) (prev cur : list placement) (ev : list 
 Fixpoint frames_key_ok (prev : list placement) (frames : list rawframe) : bool :=
   match frames with
   | [] => true
-  | (r, cur, ev) :: t => frame_key_ok (negb (r =? 0)) prev (map mk_p cur) ev && frames_key_ok (map mk_p cur) t
+  | (r, cur, ev) :: t => frame_key_ok (negb (r =? 0)) prev (map mk_p cur) (filter not_data ev) &&
+                         frames_key_ok (map mk_p cur) t
   end.
 
 (* every placement shown in a frame was drawn into a window that holds it *)
@@ -514,8 +608,15 @@ Definition drawn_inside (rops : list rawop) (p : placement) : bool :=
 Definition frames_inside_ok (rops : list rawop) (frames : list rawframe) : bool :=
   forallb (fun f : rawframe => forallb (fun rp => drawn_inside rops (mk_p rp)) (snd (fst f))) frames.
 
+(* the unguarded statement: placement protocol, draw extent, and transmission of image data *)
 Definition c20_placement_violations (cases : list placement_case) : list Z :=
-  bad_indices (fun c => negb (frames_key_ok [] (snd c) && frames_inside_ok (fst c) (snd c))) cases.
+  bad_indices (fun c => negb (frames_key_ok [] (snd c) && frames_inside_ok (fst c) (snd c) &&
+                              trans_ok [] (map mk_op (fst c))
+                                (map (fun f : rawframe => (map mk_p (snd (fst f)), snd f)) (snd c)))) cases.
+
+(* the cases under the guard of the recorded finding resize-same-cells *)
+Definition c20_known (cases : list placement_case) : list Z :=
+  bad_indices (fun c => stale_guard g_init [] (map mk_op (fst c))) cases.
 
 (* stream "float": the hardware's  float64(a) / float64(b) * float64(c)  as the exact fraction n/d
    (from math.Frexp), for positive a b c.  Ties the integer-only [rn] to the real binary64. *)
